@@ -188,7 +188,7 @@ func (f *Frame) call(site ssa.Instruction, common *ssa.CallCommon, pos token.Pos
 		} else {
 			e.note("extern " + e.P.shortFn(callee) + ": no assumed contract; result unconstrained, /repo heap assumed untouched")
 		}
-		out = f.havocVal(rt, "ext")
+		out = f.functionalResult("uf!"+callee.String(), args, common, rt, "ext")
 		f.bumpAlloc()
 	}
 	if out.T != "" && out.Tuple == nil && out.Loc == nil {
@@ -264,7 +264,7 @@ func (f *Frame) invoke(common *ssa.CallCommon, args []Val, rt types.Type, siteKe
 	}
 	e.note("interface call " + strings.TrimPrefix(key, "iface:") + ": no contract; result unconstrained, heap assumed untouched")
 	f.bumpAlloc()
-	return f.havocVal(rt, "inv")
+	return f.functionalResult("uf!"+key, args, common, rt, "inv")
 }
 
 func (f *Frame) funcValueCall(common *ssa.CallCommon, args []Val, rt types.Type, siteKey string, pos token.Pos) Val {
@@ -489,6 +489,35 @@ func (f *Frame) applyContractEnv(con *Contract, names []string, args []Val, sig 
 		f.bumpAlloc()
 	}
 	out := f.havocVal(rt, "res")
+	if e.orderMode && con.Pure && sig != nil {
+		// order check: a pure callee yields the same value for the same arguments whichever iteration runs first
+		if _, isT := rt.(*types.Tuple); !isT && len(args) > 0 {
+			var sorts, terms []string
+			okAll := true
+			var ats []types.Type
+			if sig.Recv() != nil {
+				ats = append(ats, sig.Recv().Type())
+			}
+			for i := 0; i < sig.Params().Len(); i++ {
+				ats = append(ats, sig.Params().At(i).Type())
+			}
+			for i, a := range args {
+				if a.T == "" || a.Tuple != nil || i >= len(ats) {
+					okAll = false
+					break
+				}
+				sorts = append(sorts, e.S.sortOf(ats[i]))
+				terms = append(terms, a.T)
+			}
+			if okAll {
+				sym := "ufc!" + disp
+				e.S.declare(sym, fmt.Sprintf("(declare-fun %s (%s) %s)", q(sym), strings.Join(sorts, " "), e.S.sortOf(rt)))
+				out = Val{T: e.define("res", e.S.sortOf(rt), fmt.Sprintf("(%s %s)", q(sym), strings.Join(terms, " ")))}
+				e.assumeWF("", out.T, rt)
+				e.note("order check: a call to a pure function returns the same value for the same arguments in either iteration order (freshly allocated results are identified)")
+			}
+		}
+	}
 	if con.NoReturn {
 		e.assert(not(f.curReach))
 		return out
@@ -1198,4 +1227,41 @@ func loadOfUnwrittenGlobal(v ssa.Value, li *LoopInfo, fn *ssa.Function) bool {
 		}
 	}
 	return true
+}
+
+// functionalResult: the result of a call without contract. Normally an
+// unconstrained value; while checking order independence it is a function of
+// the argument values, so that the same call on the same values gives the same
+// result in both iteration orders.
+func (f *Frame) functionalResult(sym string, args []Val, common *ssa.CallCommon, rt types.Type, hint string) Val {
+	e := f.e
+	if !e.orderMode {
+		return f.havocVal(rt, hint)
+	}
+	if _, isT := rt.(*types.Tuple); isT {
+		return f.havocVal(rt, hint)
+	}
+	var sorts, terms []string
+	var argTypes []types.Type
+	if common.IsInvoke() {
+		argTypes = append(argTypes, common.Value.Type())
+	}
+	for _, a := range common.Args {
+		argTypes = append(argTypes, a.Type())
+	}
+	for i, a := range args {
+		if a.T == "" || a.Tuple != nil || i >= len(argTypes) {
+			return f.havocVal(rt, hint)
+		}
+		sorts = append(sorts, e.S.sortOf(argTypes[i]))
+		terms = append(terms, a.T)
+	}
+	if len(terms) == 0 {
+		return f.havocVal(rt, hint)
+	}
+	name := q(sym)
+	e.S.declare(sym, fmt.Sprintf("(declare-fun %s (%s) %s)", name, strings.Join(sorts, " "), e.S.sortOf(rt)))
+	v := Val{T: e.define(hint, e.S.sortOf(rt), fmt.Sprintf("(%s %s)", name, strings.Join(terms, " ")))}
+	e.assumeWF("", v.T, rt)
+	return v
 }
